@@ -35,7 +35,7 @@ TITLE = "All sampler entry points compute the same, correct block estimator"
 MENU = {"quick": 64, "thorough": 256}
 TIERS = {
     "quick": dict(runs=64 * 6, budget_s=200, recheck=2, shrink_s=60.0, run_timeout_s=900),
-    "thorough": dict(runs=256 * 60, budget_s=2700, recheck=6, shrink_s=180.0, run_timeout_s=1800),
+    "thorough": dict(runs=256 * 60, budget_s=1200, recheck=6, shrink_s=180.0, run_timeout_s=1800),
 }
 
 RULE = (
@@ -129,11 +129,18 @@ def gen_cfg(seed, index, tier):
     m["sched_a"] = {"policy": rng.choice(["random", "sticky", "straggler", "reverse"]), "straggler": rng.randrange(3), "p_rendezvous": rng.choice([0.0, 0.5, 1.0]), "p_clock_jump": rng.choice([0.0, 0.2])}
     m["sched_b"] = {"policy": rng.choice(["random", "sticky", "straggler", "reverse"]), "straggler": rng.randrange(3), "p_rendezvous": rng.choice([0.0, 0.5, 1.0]), "p_clock_jump": rng.choice([0.0, 0.2])}
     m["fresh"] = m["kind"] in ("driver", "cross") and rng.random() < (0.04 if tier == "quick" else 0.01)
+    # "the same state" need not be a fresh one: most cross/batch runs start from the state a
+    # driver hands over (after one sampler call + QR + reconfiguration + estimate update)
+    m["warm"] = m["kind"] in ("cross", "batch") and rng.random() < 0.7
     return m
 
 
 def group_of(cfg):
     return f"m{cfg['menu']:03d}"
+
+
+def group_of_index(seed, index, tier):
+    return f"m{index % MENU[tier]:03d}"
 
 
 def spec_of(cfg, n_batch=None):
@@ -174,6 +181,17 @@ def capped_estimator(s, pd, ham_data=None, wave_data=None):
     e = np.where(np.abs(e - est) > cap, est, e)
     w = np.asarray(pd["weights"])
     return float(np.sum(e * w) / np.sum(w)), e
+
+
+def _start_state(cfg, s, smp):
+    """Fresh state, or (warm) the state the driver hands to the sampler from its second
+    sweep on: pop_control_ene_shift != e_estimate, diverse walkers, weights after SR."""
+    pd0 = lab.init_state(s, cfg["jax_seed"], harness=False)
+    if cfg.get("warm"):
+        e, _, pd1 = lab.call_entry(s, smp, "plain", None, pd0, prop=s.plain)
+        if np.isfinite(float(np.asarray(e))) and float(np.sum(np.asarray(pd1["weights"]))) > 0:
+            pd0 = lab.driver_glue(s, pd1, e, prop=s.plain)
+    return pd0
 
 
 def _state_hash(e, pd):
@@ -254,7 +272,7 @@ def _execute_cross(cfg, ctx):
     entry, mode = cfg["entry"], cfg["ad_mode"]
     site_p = "sampler.propagate_phaseless"
     site_a = "sampler.propagate_phaseless_" + entry
-    pd0 = lab.init_state(s, cfg["jax_seed"], harness=False)
+    pd0 = _start_state(cfg, s, smp)
     rot = entry in ("ad", "ad_nosr")
     tol = 1e-8 if rot else 1e-9
     rp = _call(ctx, cfg, s, smp, "plain", None, pd0, site_p)
@@ -336,7 +354,7 @@ def _execute_batch(cfg, ctx):
             ctx.count("precondition_trial_not_converged")
             return {"digest": None, "nontrivial": False}
         smp = sampling.sampler(cfg["n_prop_steps"], cfg["n_ene_blocks"], cfg["n_sr_blocks"], 1)
-        pd0 = lab.init_state(s, cfg["jax_seed"], harness=False)
+        pd0 = _start_state(cfg, s, smp)
         r = _call(ctx, cfg, s, smp, entry, mode, pd0, site)
         if r is None:
             return {"digest": None, "nontrivial": False}
